@@ -500,14 +500,23 @@ func (lw *lazyWriter) Write(p []byte) (n int, err error) {
 	if lw.w == nil {
 		vhook(nil, "h.lazy.acquire", nil)
 		acquired := make(chan struct{})
+		returned := make(chan struct{})
 		go func() {
+			defer close(returned)
 			lw.withWriterFunc(func(w io.Writer) {
 				lw.w = w
 				close(acquired)
 				<-lw.done
 			})
 		}()
-		<-acquired
+		select {
+		case <-acquired:
+		case <-returned:
+			// withWriterFunc came back without ever handing out a writer
+			// (e.g. the connection has been closed); waiting for one would
+			// block this handler goroutine forever
+			return 0, xerrors.New("failed to acquire a writer for the response")
+		}
 	}
 
 	return lw.w.Write(p)
